@@ -4,6 +4,7 @@ from props import shared
 
 PID = "C06"
 LEAN_MODULES = ['BemppVerif.Props.C06', 'BemppVerif.Gen.AsmMatch']
+LEAN_MODULES += shared.CTOR_MODULES
 N = "BemppVerif.C06."
 THEOREMS = []
 PARTIAL = {N + "curl_sum_zero": "the Maxwell electric-field decomposition and the complex symmetry of E and M (up to "
@@ -15,6 +16,7 @@ TRUSTED = [
     "theorems are about terms recorded while running the undecorated source of the real functions",
     "hand model Model/Asm.lean tied to the source by the generated AsmMatch theorems (symbolic, one generic configuration)",
     "classical analysis that is used but not formalised is named in PARTIAL",
+    shared.CTOR_TRUSTED,
 ]
 ASSUMPTIONS = []
 RULE = 'correspondence: compiled assemblers vs their traces at random numeric configurations (Tie B validation); oracle: props/c06_oracle.py'
@@ -28,6 +30,9 @@ def generate(ctx):
     THEOREMS[:] = ([N + t for t in ("refGrad_sum_zero", "curl_sum_zero", "hyp_local_annihilates_constants", "curl_product_symmetric",
                                     "jac_inv_trans_is_surface_gradient")]
                    + shared.asm_theorems("hyp_regular", "hyp_singular", "hyp_modified", "hyp_helmholtz"))
+    info.update(shared.gen_ctors()[0])
+    THEOREMS.extend(shared.ctor_theorems('laplace_boundary', 'helmholtz_boundary', 'modified_boundary', 'maxwell_boundary')
+                    + [t for t in shared.CTOR_SPEC if t.split('.')[-1] in ('hypersingular_uses_single_layer_kernel', 'maxwell_kernel_and_dimension')])
     return info
 
 
